@@ -75,12 +75,24 @@ def render_json(schema, forest):
 
 
 # ---- what independent parsers recover ------------------------------------------------------------
-def expat_structure(doc):
-    """-> list of (depth, namespace, localname, text) in document order, or None if not well-formed"""
-    res, stack = [], []
+def expat_structure(doc, qname_attrs=()):
+    """-> list of (depth, namespace, localname, text, attributes) in document order, or None if not well-formed; the value of
+    an attribute named in qname_attrs is a QName: its prefix is replaced by "{namespace in scope}" """
+    res, stack, scope = [], [], {}
     p = xml.parsers.expat.ParserCreate("UTF-8", namespace_separator="\x01")
+    def nsstart(prefix, uri):
+        scope.setdefault(prefix, []).append(uri)
+    def nsend(prefix):
+        scope[prefix].pop()
+    if qname_attrs:
+        p.StartNamespaceDeclHandler, p.EndNamespaceDeclHandler = nsstart, nsend
     def start(name, attrs):
         ns, _, ln = name.rpartition("\x01")
+        for k in attrs:
+            if k in qname_attrs:
+                pfx, _, loc = attrs[k].rpartition(":")
+                bound = scope.get(pfx or None) or ["?unbound"]
+                attrs[k] = "{%s}%s" % (bound[-1], loc)
         stack.append([len(stack), ns, ln, [], attrs])
         res.append(stack[-1])
     def end(name):
